@@ -39,6 +39,7 @@ ref_spec(const char *kind, hx_spec *sp, hx_rng *g)
 {
         hx_job j;
         sp->placement = GA_SLACK;
+        sp->ctrcls = 0; /* this driver sets its own counter classes below */
         if (hx_job_build(KM, sp, 1, &j) != 0)
                 return;
         /* counter classes: push the 32-bit block counter (and for a third of the cases also the
@@ -92,6 +93,7 @@ ref_spec(const char *kind, hx_spec *sp, hx_rng *g)
         tr_int("aadlen", sp->aadlen);
         tr_int("ivlen", sp->ivlen);
         tr_int("bitadj", sp->bitadj);
+        tr_int("pli", sp->pli);
         tr_int("inplace", sp->inplace);
         tr_int("ctrcls", ctrcls);
         tr_int("akeylen", (long long) j.rawakey_len);
@@ -378,6 +380,7 @@ replay_file(const char *path)
                 sp.aadlen = (uint32_t) jint(line, "aadlen");
                 sp.ivlen = (uint32_t) jint(line, "ivlen");
                 sp.bitadj = (uint32_t) jint(line, "bitadj");
+                sp.pli = (uint32_t) jint(line, "pli");
                 sp.inplace = (int) jint(line, "inplace");
                 sp.seed = (uint64_t) jint(line, "seedlo") | ((uint64_t) jint(line, "seedmid") << 24) |
                           ((uint64_t) jint(line, "seedhi") << 48);
